@@ -309,6 +309,26 @@ func c16Oracle(c c16Case) error {
 			return fmt.Errorf("-f/-m outputs for %q (%s) contain text that is not an unfiltered block: %q %q", c.Regexp, colour, quoteShort([]byte(fi)), quoteShort([]byte(mi)))
 		}
 	}
+	// Both filters at once: a block is admitted iff its header does not match -f and matches
+	// -m. The second expression is a fixed one that splits most outputs ("[" opens the sleep,
+	// lock and creator fields of a header).
+	if c.Regexp != "" && reHdr != nil {
+		const second = `\[`
+		re2 := regexp.MustCompile(second)
+		both, err := run("-no-color", "-f", c.Regexp, "-m", second)
+		if err != nil {
+			return err
+		}
+		var want strings.Builder
+		for _, b := range blocks {
+			if !reHdr.MatchString(b.header+"\n") && re2.MatchString(b.header+"\n") {
+				want.WriteString(b.text())
+			}
+		}
+		if string(both) != want.String() {
+			return fmt.Errorf("-f %q together with -m %q: the output is not the blocks whose header fails the first and matches the second: %s", c.Regexp, second, firstDiffBytes([]byte(want.String()), both))
+		}
+	}
 	return nil
 }
 
